@@ -214,6 +214,9 @@ class TreeHeapMixin:
           z3.Implies(kkind(e) == K_INDEX, z3.And(kisint(e), khash(e))),
           z3.Implies(z3.Or(kkind(e) == K_RESERVED, kkind(e) == K_LITERAL), z3.And(z3.Not(kisint(e)), khash(e))))))
       return VKeyPath(arr, lo, hi)
+    if ty == 'parr':        # pointwise array of non-negative finite numbers
+      t = z3.Real(self.path.fresh_name(name))
+      return VPArr(t, False)
     if ty == 'heap':
       self.tree_init()
       return VHeap(z3.Const(self.path.fresh_name(name), Heap))
@@ -283,6 +286,8 @@ class TreeHeapMixin:
 
   # ---- Python operations on nodes ---------------------------------------------------------------------
   def getitem(self, base, idx):
+    if isinstance(base, VPArr):
+      return VReal(base.t, base.nan)        # the generic element of the (sliced / broadcast) array
     if isinstance(base, VKeyPath):
       if isinstance(idx, VSlice):
         raise Unsupported('slice of a key path')
